@@ -135,10 +135,10 @@ impl GdsImporter {
 //@   ret r
 //@   sub R5 /let mut elems: SlotMap<ElementKey, Element> = SlotMap::with_key\(\);/ => let mut elems: ElemSlots = ElemSlots::with_key();
 //@   sub R6 /for elem in &strukt\.elems \{/ => for elem in strukt.elems.iter() {
-//@   sub R5 /\/\/\/ A quick local enum[\s\S]*?enum AddingAnElement \{[\s\S]*?\n            \}\n/ => 
-//@   sub R6 /layout\.insts\.extend\(insts\);/ => vp_extend_insts(&mut layout.insts, insts);
+//@   sub R5 @1124382c /\/\/\/ A quick local enum[\s\S]*?enum AddingAnElement \{[\s\S]*?\n            \}\n/ => 
+//@   sub R6? /layout\.insts\.extend\(insts\);/ => vp_extend_insts(&mut layout.insts, insts);
 //@   sub R5 /No\(self\.unsupported\.push\(x\.clone\(\)\.into\(\)\)\)/ => No(self.unsupported.push(vp_node_elem(x)))
-//@   sub R5 /let selflayers = self\.layers\.read\(\)\?;\s*let layernum = match selflayers\.get\(e\.layer\) \{[\s\S]*?\n                \};/ => let layernum = self.vp_layernum(e.layer)?;
+//@   sub R5 @accf442b /let selflayers = self\.layers\.read\(\)\?;\s*let layernum = match selflayers\.get\(e\.layer\) \{[\s\S]*?\n                \};/ => let layernum = self.vp_layernum(e.layer)?;
 //@   sub R6 /if let Some\(ref mut bucket\) = layers\.get_mut\(&layernum\) \{\s*bucket\.push\(ekey\);\s*\} else \{\s*layers\.insert\(layernum, vec!\[ekey\]\);\s*\}/ => vp_bucket_push(&mut layers, layernum, ekey);
 //@   sub R6 /for textelem in &texts \{/ => let mut vp_t: usize = 0; while vp_t < texts.len() { let textelem = &texts[vp_t]; vp_t += 1;
 //@   sub R5 /let elem = elems\.get_mut\(\*ekey\)\.unwrap\(\);/ => let elem = &mut elems.v[ekey.idx];
@@ -173,7 +173,7 @@ impl GdsImporter {
 //@   before /use gds21::GdsElement::\*;/
 //|             let ghost ev0 = elems.v@; let ghost tx0 = texts@; let ghost lm0 = layers@; let ghost is0 = layout.insts@; let ghost mut iv: Seq<Instance> = Seq::empty();
 //|             proof { assert(strukt.elems@.take(it.index@ + 1).drop_last() == strukt.elems@.take(it.index@ as int)); assert(strukt.elems@.take(it.index@ + 1).last() == *elem); }
-//@   before /vp_extend_insts\(&mut layout\.insts, insts\);/
+//@   before1 /vp_extend_insts\(&mut layout\.insts, insts\);|layout\.insts = insts;/
 //|                         proof { iv = insts@; assert(aref_imp(iv, elem->GdsArrayRef_0, self.cell_map)); }
 //@   before /let ekey = elems\.insert\(e\);/
 //|                 let ghost enew = e;
